@@ -14,6 +14,7 @@ def run(tier):
     rep = Report(PID, tier, 'model_checking')
     bl = hjcommon.QUICK_BOUNDS if tier == 'quick' else hjcommon.THOROUGH_BOUNDS + hjcommon.HUGE_BOUNDS
     tot = hjcommon.explore(rep, ('C08',), bl, ('R',))
+    hjcommon.explore_codecs(rep, ('C08',), tier, ('R',))
     c = rep.coverage
     c['log_replays'] = tot['monitors']
     c['card_round_trips'] = tot['core_states']
